@@ -168,11 +168,13 @@ class RichGen:
         for i, (k, _) in enumerate(params):
             if k == "int":
                 args.append(("int", r.choice([0, 1, 2, 3, 5, -2])))
+            elif params[i][1] in getattr(self, "chain_params", {}).get(fname, ()):
+                # a run-time value for certain: a named input (an all-literal expression folds to a constant)
+                ins = [n for n, k_, _ in self.scope if k_ == "sig"]
+                args.append(("ref", r.choice(ins)) if ins else self.sig_expr(1))
             elif i == 0:
                 # the first argument is never constant, so that a call never folds to a compound
                 # constant (region of known finding S14)
-                args.append(self.sig_expr(1))
-            elif params[i][1] in getattr(self, "chain_params", {}).get(fname, ()):
                 args.append(self.sig_expr(1))
             else:
                 args.append(self.sig_expr(1) if r.random() < 0.6 else ("int", r.choice([1, 2, 7])))
